@@ -113,7 +113,7 @@ def run(ctx):
 
     # ---- 3. C->S: random grid inputs through every entry point --------------------------------------
     rng = np.random.default_rng(ctx.seed)
-    ncell = 40 if quick else 400
+    ncell = 60 if quick else 500
     npair = 60 if quick else 250
     Q = 4
     for ci in range(ncell):
@@ -126,17 +126,22 @@ def run(ctx):
         else:
             L = rng.integers(4, 40, 3)
             tilt = [int(rng.integers(-L[0], L[0] + 1)) if rng.random() < .7 else 0 for _ in range(3)]
-            thin = bool(rng.random() < .45)
+            thin = bool(rng.random() < .6)
             if thin:      # thin cell whose tilt nearly equals lx: b - a is shorter than a and b
                 L[1] = int(rng.integers(2, 6))
                 tilt[0] = int(L[0] - rng.integers(0, 3))
         v = [[int(L[0]), 0, 0], [tilt[0], int(L[1]), 0], [tilt[1], tilt[2], int(L[2])]]
-        if rng.random() < .3:        # not LAMMPS oriented: signed permutation of the Cartesian axes
+        permuted = bool(rng.random() < .3)
+        if permuted:        # not LAMMPS oriented: signed permutation of the Cartesian axes
             perm = rng.permutation(3)
             sg = rng.choice([-1, 1], 3)
             v = [[int(sg[j] * row[perm[j]]) for j in range(3)] for row in v]
         o = [int(x) for x in rng.integers(-20, 21, 3)] if rng.random() < .6 else [0, 0, 0]
         pbc = [bool(x) for x in rng.integers(0, 2, 3)]
+        if not small and thin and rng.random() < .8:
+            pbc = [True, True, bool(rng.integers(0, 2))]      # the short combination b - a only matters when a and b are both periodic
+            if permuted:
+                pbc = [True, True, True]
         box = _box(am, v, o, Qs)
         V = np.array(v)
 
